@@ -1293,7 +1293,19 @@ func (sub *Interp) runBody(st *State, ft *ast.FuncType, body *ast.BlockStmt, env
 			out = TupleV{last.Vals}
 		}
 		for i := len(good) - 2; i >= 0; i-- {
+			prev := out
 			out = joinVals(good[i].Guard, good[i].Vals, out)
+			// a byte slice that is one buffer on this return and another on the later ones (a view of a field,
+			// or a fresh zero buffer): the result is their join, not the last one
+			if len(good[i].Vals) == 1 {
+				if av, ok := good[i].Vals[0].(BufV); ok {
+					if bv, ok := prev.(BufV); ok && av.ID != bv.ID {
+						if jv, ok := sub.joinBufVals(st, good[i].St, good[i].Guard, av, bv); ok {
+							out = jv
+						}
+					}
+				}
+			}
 		}
 	}
 	st.vars = saved
@@ -1457,4 +1469,57 @@ func (w *World) uniqueImpl(f *types.Func) *FuncInfo {
 	}
 	w.implCache[f] = found
 	return found
+}
+
+// joinBufVals: the buffer a helper returns when it returns buffer a (known in state sa) under cond and buffer
+// b (known in st) otherwise.
+func (in *Interp) joinBufVals(st, sa *State, cond string, a, b BufV) (BufV, bool) {
+	if sa == nil {
+		return BufV{}, false
+	}
+	oa, ob := sa.bufs[a.ID], st.bufs[b.ID]
+	if oa == nil || ob == nil {
+		return BufV{}, false
+	}
+	// the condition of the return, relative to the caller's guard
+	rel := cond
+	if g := in.parentGuard(); g != "" && strings.HasPrefix(rel, g+" && ") {
+		rel = rel[len(g)+4:]
+	}
+	view := func(o *BufObj, v BufV) *Term {
+		if v.Hi != nil {
+			return v.Hi.Sub(v.Off)
+		}
+		return o.Len.Sub(v.Off)
+	}
+	la, lb := view(oa, a), view(ob, b)
+	j := &BufObj{Origin: "join", Len: Ite(rel, la, lb), Extent: Ite(rel, la, lb), Pos: oa.Pos}
+	add := func(o *BufObj, v BufV, l *Term, g string) {
+		switch {
+		case len(o.Recs) > 0:
+			for _, r := range o.Recs {
+				nr := *r
+				nr.Off = r.Off.Sub(v.Off)
+				nr.Guard = andGuard(nr.Guard, g)
+				j.Recs = append(j.Recs, &nr)
+			}
+		case o.Origin == "enc":
+			j.Recs = append(j.Recs, &Rec{Off: Const(0), W: l, Kind: "child", Src: "enc(" + o.Src + ")", Guard: g, Pos: o.Pos, Snap: o.Snap})
+		case o.Origin == "field" || o.Origin == "arg":
+			j.Recs = append(j.Recs, &Rec{Off: Const(0), W: l, Kind: "bytes", Src: o.Src, Guard: g, Pos: o.Pos})
+		case o.Origin == "make":
+			j.Recs = append(j.Recs, &Rec{Off: Const(0), W: l, Kind: "zero", Src: "zero", Guard: g, Pos: o.Pos})
+		}
+	}
+	add(oa, a, la, rel)
+	add(ob, b, lb, negCond(rel))
+	return in.newBuf(st, j), true
+}
+
+// parentGuard: the caller's path condition at the point of an inlined call.
+func (in *Interp) parentGuard() string {
+	if in.parent == nil {
+		return ""
+	}
+	return in.parent.guard()
 }
